@@ -8,7 +8,7 @@ package eval
 // case can influence another.
 //
 // Enumerated, for 2 flavours (payments only / payments + asset creation + key-offline) x group
-// sizes 1..4 of otherwise valid transactions whose Group field is the harness's own computation of
+// sizes 1..4 (thorough: 1..5) of otherwise valid transactions whose Group field is the harness's own computation of
 // "hash of all members' IDs (Group field cleared) in order":
 //   original                                   (must be accepted by both entry points)
 //   every non-identity permutation              (n!-1)
@@ -27,7 +27,7 @@ package eval
 // Not covered: groups > 4, app-call groups, signature checks (package verify; see C28).
 // Unexported identifiers used: newTestLedger, evalTestLedger.StartEvaluator (upstream test helpers).
 //
-// Mutants (bin/mut, quick): see verif_c29_b_test.go header / report.
+// Mutants: listed in data/bookkeeping/verif_c29_b_test.go (M1 and M4 hit this part).
 
 import (
 	"fmt"
@@ -120,10 +120,10 @@ func TestVerif_C29_a(t *testing.T) {
 		return transactions.Transaction{Type: protocol.KeyRegistrationTx, Header: mkHdr(sender, salt)}
 	}
 	flavours := map[string][]transactions.Transaction{
-		"pay":   {pay(0, 1, 1_000_001, 1), pay(1, 2, 1_000_002, 2), pay(2, 0, 1_000_003, 3), pay(0, 3, 1_000_004, 4)},
-		"mixed": {acfg(4, 5), pay(5, 4, 2_000_001, 6), keyoff(6, 7), pay(4, 6, 2_000_002, 8)},
+		"pay":   {pay(0, 1, 1_000_001, 1), pay(1, 2, 1_000_002, 2), pay(2, 0, 1_000_003, 3), pay(3, 0, 1_000_004, 4), pay(6, 1, 1_000_005, 12)},
+		"mixed": {acfg(4, 5), pay(5, 4, 2_000_001, 6), keyoff(6, 7), pay(7, 6, 2_000_002, 8), pay(3, 5, 2_000_003, 13)},
 	}
-	foreignPlain := pay(7, 8, 3_000_001, 9)
+	foreignPlain := pay(8, 9, 3_000_001, 9)
 	otherGroup := c29regroup([]transactions.Transaction{pay(8, 9, 3_000_002, 10), pay(9, 8, 3_000_003, 11)})
 
 	type alt struct {
@@ -138,7 +138,7 @@ func TestVerif_C29_a(t *testing.T) {
 		{"note", func(t *transactions.Transaction) { t.Note = append(append([]byte{}, t.Note...), 'x') }},
 		{"lease", func(t *transactions.Transaction) { t.Lease[0] ^= 1 }},
 		{"genesisid", func(t *transactions.Transaction) { t.GenesisID = nextHdr.GenesisID }},
-		{"rekeyto", func(t *transactions.Transaction) { t.RekeyTo = addrs[8] }},
+		{"rekeyto", func(t *transactions.Transaction) { t.RekeyTo = addrs[8] }}, // takes effect after the txn: benign for distinct senders
 		{"receiver", func(t *transactions.Transaction) {
 			if t.Type == protocol.PaymentTx {
 				t.Receiver = addrs[7]
@@ -157,7 +157,7 @@ func TestVerif_C29_a(t *testing.T) {
 		}},
 		{"closeto", func(t *transactions.Transaction) {
 			if t.Type == protocol.PaymentTx {
-				t.CloseRemainderTo = addrs[7]
+				t.CloseRemainderTo = addrs[9]
 			} else if t.Type == protocol.AssetConfigTx {
 				t.AssetParams.Reserve = addrs[7]
 			} else {
@@ -166,9 +166,10 @@ func TestVerif_C29_a(t *testing.T) {
 		}},
 	}
 
+	maxN := ve.Pick(4, 5) // group sizes 1..4 (quick) / 1..5 (thorough)
 	var cases []c29case
 	for _, fl := range []string{"pay", "mixed"} {
-		for n := 1; n <= 4; n++ {
+		for n := 1; n <= maxN; n++ {
 			orig := c29regroup(flavours[fl][:n])
 			add := func(kind, detail string, txns []transactions.Transaction, accept, control bool) {
 				cases = append(cases, c29case{Flavour: fl, N: n, Kind: kind, Detail: detail, txns: txns, accept: accept, control: control})
@@ -208,7 +209,7 @@ func TestVerif_C29_a(t *testing.T) {
 			for i := 0; i < n; i++ {
 				inserts[fmt.Sprintf("duplicate-of-%d", i)] = orig[i]
 			}
-			for _, name := range []string{"foreign-plain", "foreign-claiming-gid", "member-of-other-group", "duplicate-of-0", "duplicate-of-1", "duplicate-of-2", "duplicate-of-3"} {
+			for _, name := range []string{"foreign-plain", "foreign-claiming-gid", "member-of-other-group", "duplicate-of-0", "duplicate-of-1", "duplicate-of-2", "duplicate-of-3", "duplicate-of-4"} {
 				ins, ok := inserts[name]
 				if !ok {
 					continue
@@ -284,7 +285,7 @@ func TestVerif_C29_a(t *testing.T) {
 		}
 	})
 	cov := ve.Coverage{
-		Rule:       fmt.Sprintf("part a: %d group cases = 2 flavours x sizes 1..4 x {original, all permutations, all proper sub-sequences, all insertions (3 foreign kinds + own duplicates, every position), %d single-field alterations per member (+ regrouped controls), group id zeroed/foreign on one/all}; each through TestTransactionGroup and TransactionGroup on a fresh evaluator", len(cases), len(alts)),
+		Rule:       fmt.Sprintf("part a: %d group cases = 2 flavours x sizes 1..%d x {original, all permutations, all proper sub-sequences, all insertions (3 foreign kinds + own duplicates, every position), %d single-field alterations per member (+ regrouped controls), group id zeroed/foreign on one/all}; each through TestTransactionGroup and TransactionGroup on a fresh evaluator", len(cases), maxN, len(alts)),
 		Exhaustive: visited == int64(len(cases)),
 	}
 	if n := r.Finish(cov); n > 0 {
